@@ -120,6 +120,7 @@ def check(index, ctx):
     P, rs = _pipe.runs(index)
     inventory: dict = {}
     n_rej = 0
+    once_r2: dict = {}
     for run in rs:
         for res in run.raising():
             if res.exc.exc_name != "ValueError":
@@ -137,6 +138,24 @@ def check(index, ctx):
                             f"path [{res.describe_path()[-80:]}]: no write before the raise",
                             f"on path [{res.describe_path()[-120:]}] {len(gw)} .grad write site(s) (first: {gw[0]['loc'] if gw else ''} on {gw[0]['target'] if gw else ''}) execute before the ValueError raised at {site}",
                             site, derivation={"kind": what, "path": res.describe_path()[-200:]})
+        # R2 inside loops: a rejection raised in the body of a loop the analysis summarises is not a path of its own (`may_raise_in_loop`);
+        # a .grad write that an EARLIER iteration of the same loop (or anything before the loop) has executed precedes it
+        for res in run.results:
+            gw = _pipe.evs(res, "grad_write")
+            if not gw:
+                continue
+            raises = [e for e in res.events if e["kind"] == "raise" and e.get("exc") == "ValueError" and e.get("loops")]
+            for e in raises:
+                last = e["function"].split(".")[-1]
+                if last == "_check_expects_grad" or ("_transform" in e["function"] and last not in ("ordered_set", "__init__")):
+                    continue  # the re-check next to the write is covered by the up-front validation (R3); internal consistency checks are not argument rejections
+                before = [w for w in gw if (set(w["loops"]) & set(e["loops"])) or w["seq"] <= e.get("after_seq", 0)]
+                k_ = f"{run.entry}: rejection raised at {e['loc'].split('/')[-1]} inside a loop"
+                if before and not once_r2.get((run.entry, e["loc"])):
+                    once_r2[(run.entry, e["loc"])] = True
+                    w = before[0]
+                    ctx.violated("R2", k_, f"`{e['text'][:60]}` ({e['function'].split('.')[-1]}) can reject the call in a later iteration of a loop in which — or before which — .grad was already written "
+                                 f"({w['loc']} on {w['target']}): an offending argument at a late position is refused after the .grad of the earlier ones was modified", e["loc"])
         # R3 on every returning / raising path that writes
         for res in run.results:
             gw = _pipe.evs(res, "grad_write")
